@@ -26,7 +26,8 @@ From Coq Require Import List NArith ZArith Bool.
 From Coq Require Import Strings.Byte.
 From GoBT Require Import lib.Bytes lib.VarInt lib.Sha256 lib.Ripemd160 model.Tx spec.DigestSpec spec.CommitSpec model.SigHash
   model.SigHashWire model.TxMutate model.ScriptNum model.Interp model.CheckSig proofs.SigHashProofs proofs.CommitProofs
-  proofs.CommitModelProofs proofs.P2PKHProofs proofs.SignedCoverageProofs.
+  proofs.CommitModelProofs proofs.P2PKHProofs proofs.SignedCoverageProofs proofs.AuditAC04 proofs.AuditACommit
+  proofs.AuditASigHash.
 Import ListNotations.
 Local Open Scope N_scope. Local Open Scope bool_scope.
 
@@ -273,6 +274,171 @@ Theorem C04_commit_sensitive_legacy_partial : forall t i ht m, ht < 256 ->
   fst (calc_input_preimage_legacy t' (N.of_nat i') ht) <> fst (calc_input_preimage_legacy t (N.of_nat i) ht).
 Proof. exact model_commit_sensitive_legacy. Qed.
 Print Assumptions C04_commit_sensitive_legacy_partial.
+
+(** * (c) RELATIVE TO THE ORACLE and with the residual assumption as a hypothesis (audit A)
+
+    Rejection needs no cryptography once "the oracle does not accept this signature over the digest the engine
+    recomputes" is a hypothesis: for every oracle, transaction, flag word and well-encoded P2PKH / inscription
+    unlocking script, if key or signature do not parse, or Verify does not say yes ([oracle_accepts = false]), the
+    interpreter model answers VErr (false on the stack at the end, or the NULLFAIL error).  Mirror image of
+    [C04_signed_p2pkh_accepts]. *)
+Theorem C04_signed_p2pkh_rejects : forall (orc : sig_oracle) (t : tx) (idx : N) (inp : input) (flags sats ht : N)
+    (sig pk body : bytes) (insc : bool) (bops : list pop) (h : bytes),
+  let full := sig ++ [n2b ht] in
+  let unlock := p2pkh_unlock sig ht pk in
+  let lock := p2pkh_lock (hash160 pk) ++ (if insc then inscription_suffix body else []) in
+  let tE := engine_tx t idx unlock lock sats in
+  let c := mkCtx (normalise_flags flags) true (Z.of_N (tx_lock t)) (Z.of_N (tx_version t)) (Z.of_N (in_seq inp)) false in
+  ht < 256 -> length pk = 33%nat -> (length full <= 75)%nat ->
+  (has_flag c F_MINIMALDATA = true -> sig <> []) ->
+  (has_flag c F_CLEANSTACK = true -> has_flag c F_BIP16 = true) ->
+  (lenZ lock <= max_script_size c)%Z ->
+  (insc = true -> parse_ops (length body) false body 1 = Some bops /\ is_push_only bops = true /\
+                  Forall (fun p => (lenZ (p_data p) <= max_elem c)%Z) bops) ->
+  check_hash_type c ht = true -> check_sig_enc c sig = EncOk -> check_pubkey_enc c pk = true ->
+  (has_flag c F_FORKID && flag_has ht sh_forkid = true \/
+   forall l, parse_script false lock = Some l -> remove_by_data l full = l) ->
+  sighash_for tE idx lock ht = SOk h ->
+  oracle_accepts orc c pk h sig = false ->
+  fst (engine_execute (mk_sigops orc tE idx)
+         (mkExecInput unlock lock flags true true (Z.of_N (tx_lock t)) (Z.of_N (tx_version t)) (Z.of_N (in_seq inp)))) = VErr.
+Proof. exact signed_p2pkh_rejects. Qed.
+Print Assumptions C04_signed_p2pkh_rejects.
+
+(** the same with the digest CalcInputSignatureHash gives on the transaction object as it now is (e.g. after a
+    mutation): if the oracle does not accept the old signature over THAT digest, the input is rejected *)
+Theorem C04_signed_p2pkh_rejects_unlocker_digest : forall (orc : sig_oracle) (t : tx) (idx : N) (inp : input)
+    (flags sats ht : N) (sig pk body : bytes) (insc : bool) (bops : list pop) (h : bytes),
+  let full := sig ++ [n2b ht] in
+  let unlock := p2pkh_unlock sig ht pk in
+  let lock := p2pkh_lock (hash160 pk) ++ (if insc then inscription_suffix body else []) in
+  let tE := engine_tx t idx unlock lock sats in
+  let c := mkCtx (normalise_flags flags) true (Z.of_N (tx_lock t)) (Z.of_N (tx_version t)) (Z.of_N (in_seq inp)) false in
+  wf_tx t -> nthN (tx_ins t) idx = Some inp -> in_script inp = Some lock -> in_sats inp = sats ->
+  idx + 1 < two32 ->
+  ht < 256 -> length pk = 33%nat -> (length full <= 75)%nat ->
+  (has_flag c F_MINIMALDATA = true -> sig <> []) ->
+  (has_flag c F_CLEANSTACK = true -> has_flag c F_BIP16 = true) ->
+  (lenZ lock <= max_script_size c)%Z ->
+  (insc = true -> parse_ops (length body) false body 1 = Some bops /\ is_push_only bops = true /\
+                  Forall (fun p => (lenZ (p_data p) <= max_elem c)%Z) bops) ->
+  check_hash_type c ht = true -> check_sig_enc c sig = EncOk -> check_pubkey_enc c pk = true ->
+  (has_flag c F_FORKID && flag_has ht sh_forkid = true \/
+   forall l, parse_script false lock = Some l -> remove_by_data l full = l) ->
+  fst (calc_input_signature_hash t idx ht) = SOk h ->
+  oracle_accepts orc c pk h sig = false ->
+  fst (engine_execute (mk_sigops orc tE idx)
+         (mkExecInput unlock lock flags true true (Z.of_N (tx_lock t)) (Z.of_N (tx_version t)) (Z.of_N (in_seq inp)))) = VErr.
+Proof. exact signed_p2pkh_rejects_unlocker_digest. Qed.
+Print Assumptions C04_signed_p2pkh_rejects_unlocker_digest.
+
+(** [oracle_accepts = false] is exactly: the key does not parse, or the signature does not, or Verify does not
+    answer yes *)
+Theorem C04_oracle_accepts_false_iff : forall orc c pk h sig,
+  oracle_accepts orc c pk h sig = false <->
+  orc_parse_pub orc pk = false \/ orc_parse_sig orc (uses_der_parser c) sig = false \/
+  orc_verify orc pk h sig (uses_der_parser c) <> Some true.
+Proof. exact oracle_accepts_false_iff. Qed.
+Print Assumptions C04_oracle_accepts_false_iff.
+
+(** the residual assumption of the FORKID part as an explicit hypothesis: different pre-hash fields give different
+    PREIMAGES unless one of the three inner double SHA-256 collides on the pair at hand (or hits the all-zero
+    word); and different SIGNATURE HASHES unless, in addition, the outer double SHA-256 collides on the two preimages *)
+Theorem C04_forkid_preimage_sensitive_mod_collisions : forall v v', wf_fview v -> wf_fview v' ->
+  components_of v' <> components_of v ->
+  no_collision (fc_prevouts (components_of v')) (fc_prevouts (components_of v)) ->
+  no_collision (fc_sequences (components_of v')) (fc_sequences (components_of v)) ->
+  no_collision (fc_outputs (components_of v')) (fc_outputs (components_of v)) ->
+  assemble (components_of v') <> assemble (components_of v).
+Proof. exact forkid_preimage_sensitive_mod_collisions. Qed.
+Print Assumptions C04_forkid_preimage_sensitive_mod_collisions.
+Theorem C04_forkid_sighash_sensitive_mod_collisions : forall v v', wf_fview v -> wf_fview v' ->
+  components_of v' <> components_of v ->
+  no_collision (fc_prevouts (components_of v')) (fc_prevouts (components_of v)) ->
+  no_collision (fc_sequences (components_of v')) (fc_sequences (components_of v)) ->
+  no_collision (fc_outputs (components_of v')) (fc_outputs (components_of v)) ->
+  (hash256 (assemble (components_of v')) = hash256 (assemble (components_of v)) ->
+   assemble (components_of v') = assemble (components_of v)) ->
+  hash256 (assemble (components_of v')) <> hash256 (assemble (components_of v)).
+Proof. exact forkid_sighash_sensitive_mod_collisions. Qed.
+Print Assumptions C04_forkid_sighash_sensitive_mod_collisions.
+
+(** on the library model: after an effective mutation of a committed field CalcInputPreimage returns different bytes,
+    unless one of the three inner hashes collides *)
+Theorem C04_commit_sensitive_forkid_mod_collisions : forall t i ht m, ht < 256 ->
+  let t' := fst (apply_tx m t i) in let i' := snd (apply_tx m t i) in
+  signable t i -> signable t' i' ->
+  committed_in AlgForkid ht (sign_ctx_of t i) m = true -> effective m (sign_ctx_of t i) ->
+  NoDup (tx_outs t) -> NoDup (tx_outs t') ->
+  exists v v',
+    fst (calc_input_preimage t (N.of_nat i) ht) = SOk (assemble (components_of v)) /\
+    fst (calc_input_preimage t' (N.of_nat i') ht) = SOk (assemble (components_of v')) /\
+    components_of v' <> components_of v /\
+    (no_collision (fc_prevouts (components_of v')) (fc_prevouts (components_of v)) ->
+     no_collision (fc_sequences (components_of v')) (fc_sequences (components_of v)) ->
+     no_collision (fc_outputs (components_of v')) (fc_outputs (components_of v)) ->
+     fst (calc_input_preimage t' (N.of_nat i') ht) <> fst (calc_input_preimage t (N.of_nat i) ht)).
+Proof. exact model_commit_sensitive_forkid_mod_collisions. Qed.
+Print Assumptions C04_commit_sensitive_forkid_mod_collisions.
+
+(** non-vacuity of the rejection theorem: direct evaluation of the model with an oracle that verifies nothing gives
+    VErr on the instances of [C04_p2pkh_hypotheses_satisfiable] (and under NULLFAIL) ... *)
+Example C04_rejection_direct_evaluation :
+  forall insc flags ht, In (insc, flags, ht) [(true, FLAGS_FORKID_GENESIS, 65); (false, FLAGS_FORKID_GENESIS, 65);
+                                               (true, 0, 1); (false, 0, 1);
+                                               (true, FLAGS_FORKID_GENESIS + N.shiftl 1 F_NULLFAIL, 65)] ->
+  fst (engine_execute (mk_sigops no_orc (engine_tx (P2PKHProofs.ex_tx insc) 0 (p2pkh_unlock ex_sig ht ex_pk) (ex_lock insc) 1000) 0)
+         (mkExecInput (p2pkh_unlock ex_sig ht ex_pk) (ex_lock insc) flags true true 0 1 4294967295)) = VErr.
+Proof.
+  intros insc flags ht H. cbn [In] in H.
+  destruct H as [H|[H|[H|[H|[H|[]]]]]]; injection H as <- <- <-; vm_compute; reflexivity.
+Qed.
+(** ... and coverage end to end on an instance: a signature the oracle accepts ONLY over the digest of the original
+    transaction (SINGLE|ANYONECANPAY|FORKID, input 0) stays accepted after mutations of uncommitted fields (an output
+    appended, an input appended) and is rejected after mutations of committed ones (value of output 0, locktime,
+    spent value) *)
+Example C04_coverage_on_instance :
+  let t0 := P2PKHProofs.ex_tx true in
+  let h0 := match fst (calc_input_signature_hash t0 0 0xc3) with SOk h => h | _ => [] end in
+  let u := p2pkh_unlock ex_sig 0xc3 ex_pk in
+  let run (m : mutation) :=
+    let t' := fst (apply_tx m t0 0) in
+    fst (engine_execute (mk_sigops (only_orc h0)
+                           (engine_tx t' 0 u (ex_lock true) (match tx_ins t' with x :: _ => in_sats x | [] => 0 end)) 0)
+           (mkExecInput u (ex_lock true) FLAGS_FORKID_GENESIS true true (Z.of_N (tx_lock t')) (Z.of_N (tx_version t')) 4294967295)) in
+  length h0 = 32%nat /\
+  run (MOutInsert 1 (mkTxOut 5 [x51])) = VOk /\
+  run (MInInsert 1 (mkTxIn (mkOutPoint (repeat_byte 32 x11) 0) [] 5)) = VOk /\
+  run (MOutValue 0 901) = VErr /\ run (MLocktime 1) = VErr /\ run (MSpentValue 999) = VErr.
+Proof. vm_compute. repeat split. Qed.
+
+(** * hypotheses of (a) that are facts about what the library produces *)
+
+(** the hash-type check of opcodeCheckSig passes for the six FORKID types under the FORKID flag, and for the six
+    legacy types without it, whatever the other flags *)
+Theorem C04_hash_type_ok_forkid : forall c ht, has_flag c F_FORKID = true ->
+  In ht [0x41; 0x42; 0x43; 0xc1; 0xc2; 0xc3] -> check_hash_type c ht = true.
+Proof. exact hash_type_ok_forkid. Qed.
+Print Assumptions C04_hash_type_ok_forkid.
+Theorem C04_hash_type_ok_legacy : forall c ht, has_flag c F_FORKID = false -> has_flag c F_BIP143 = false ->
+  In ht [0x01; 0x02; 0x03; 0x81; 0x82; 0x83] -> check_hash_type c ht = true.
+Proof. exact hash_type_ok_legacy. Qed.
+Print Assumptions C04_hash_type_ok_legacy.
+(** a compressed public key (33 bytes, first byte 02 or 03) passes checkPubKeyEncoding under every flag word *)
+Theorem C04_pubkey_enc_ok_compressed : forall c b0 r, length r = 32%nat -> (b2n b0 = 2 \/ b2n b0 = 3) ->
+  check_pubkey_enc c (b0 :: r) = true.
+Proof. exact pubkey_enc_ok_compressed. Qed.
+Print Assumptions C04_pubkey_enc_ok_compressed.
+
+(** the signature hash does not read unlocking scripts (both algorithms): signing input 0 before input 1 has its
+    script, and verifying afterwards, see the same digest *)
+Theorem C04_sighash_ignores_unlocking_scripts : forall t1 t2 i ht inp1 sc,
+  wf_tx t1 -> wf_tx t2 -> ht < 256 -> i + 1 < two32 ->
+  erase_unlocks t1 = erase_unlocks t2 ->
+  nth_error (tx_ins t1) (N.to_nat i) = Some inp1 -> in_script inp1 = Some sc ->
+  fst (calc_input_signature_hash t1 i ht) = fst (calc_input_signature_hash t2 i ht).
+Proof. exact sighash_ignores_unlocking_scripts. Qed.
+Print Assumptions C04_sighash_ignores_unlocking_scripts.
 
 (** * non-vacuity *)
 Definition ex_tx : tx :=
